@@ -85,7 +85,7 @@ def dim_count_ok(n_term, nd, loops3, ranks):
     return False
 
 
-def builders(ctx, pfx, A, ev, loops3, ci, oi, chain_first, value_of, nd, sp, n_term=None):
+def builders(ctx, pfx, A, ev, loops3, ci, oi, chain_first, value_of, nd, sp, n_term=None, ndims=None):
     """column builders: chain/observation appended once per row with the loop index of their axis, dim builders per element"""
     lmid, linner = loops3[1], loops3[2]
     j = linner.var
@@ -110,7 +110,7 @@ def builders(ctx, pfx, A, ev, loops3, ci, oi, chain_first, value_of, nd, sp, n_t
         lout_ = loops3[0]
         ok0 = [x for x in lout_.lh if keyrepr(x) == keyrepr(dk[0])]
         cnt = seq_len(strip_eff(lout_.init[ok0[0]])) if ok0 and isinstance(lout_.init.get(ok0[0]), T.Tm) else None
-        ctx.check(pfx + '.values.builder_count', A, 'dim-builders', cnt is not None and canon_nd(cnt, ctx.extra.get('_ranks', {})) is canon_nd(nd, ctx.extra.get('_ranks', {})),
+        ctx.check(pfx + '.values.builder_count', A, 'dim-builders', cnt is not None and canon_nd(cnt, ctx.extra.get('_ranks', {})) is canon_nd(ndims if ndims is not None else nd, ctx.extra.get('_ranks', {})),
                   expected='exactly n_dims value builders (one per dim_j column of the schema)', found=show(cnt) if cnt is not None else 'builder vector not identified', sp=sp,
                   why='a builder more or less than the schema has columns makes every export fail (or drop a column): nothing round-trips')
     ctx.check(pfx + '.values.dims', A, 'dim-columns', okd, expected='dim builder j receives element j of the (chain, observation) cell, for every j < n_dims', found=show(linner.next[dk[0]])[:300] if dk else 'no builder vector', sp=linner.sp,
@@ -279,7 +279,7 @@ def array_arrow_like(ctx, path, pfx, closer):
             and dim_count_ok(inner[0].n, nd, (t, m, inner[0]), {data: 3})      # (which element goes to which builder is decided by .values.dims)
         ctx.check(pfx + '.values.loops', A, 'loops', okloops, expected='chain loop over axis 0, observation loop over axis 1, dim loop over axis 2, indices from enumerate', found='n=%s / %s / %s' % (show(t.n)[:80], show(m.n)[:80], show(inner[0].n)[:80]), sp=t.sp,
                   why='one row per (chain, observation) cell, labelled with its indices')
-        builders(ctx, pfx, A, ev, (t, m, inner[0]), ci, oi, True, lambda j: sel(data, ci, oi, j), canon_nd_n(inner[0].n, data), sp)
+        builders(ctx, pfx, A, ev, (t, m, inner[0]), ci, oi, True, lambda j: sel(data, ci, oi, j), canon_nd_n(inner[0].n, data), sp, ndims=nd)
     widening(ctx, pfx, A, b)
     into = ev.events(lambda e: False)
     errdisc(ctx, pfx, A, ev, sp, closer)
